@@ -226,6 +226,30 @@ def _in_template(lexemes, k):
     return False
 
 
+TEMPLATE_HEADS = ("vec2", "vec3", "vec4", "array", "bitcast", "ptr", "atomic") + tuple("mat%dx%d" % (c, r) for c in (2, 3, 4) for r in (2, 3, 4))
+
+
+def _closes_template(lexemes, k):
+    """is the `>` at position k the end of a template argument list `vec4<f32>` / `array<T, N>` / `bitcast<T>` (and not a
+    greater-than operator)?  Walk back over the only things a type argument list can contain."""
+    depth = 0
+    j = k
+    while j >= 0:
+        lx = lexemes[j]
+        if lx == ">":
+            depth += 1
+        elif lx == ">>":
+            depth += 2
+        elif lx == "<":
+            depth -= 1
+            if depth == 0:
+                return j >= 1 and lexemes[j - 1] in TEMPLATE_HEADS
+        elif not (lx == "," or lx[0].isalnum() or lx[0] == "_"):
+            return False
+        j -= 1
+    return False
+
+
 def add_trailing_commas(lexemes, rng):
     """`f(a, b)` -> `f(a, b,)` for call/constructor argument lists and parameter
     lists, `struct S { a: T }` unaffected (member commas are separate)."""
@@ -235,7 +259,7 @@ def add_trailing_commas(lexemes, rng):
     for k, lx in enumerate(lexemes):
         if lx == "(":
             prev = lexemes[k - 1] if k > 0 else ""
-            is_call = bool(prev) and (prev[0].isalpha() or prev[0] == "_" or prev == ">") and prev not in (
+            is_call = bool(prev) and (prev[0].isalpha() or prev[0] == "_" or (prev == ">" and _closes_template(lexemes, k - 1))) and prev not in (
                 "if", "while", "for", "switch", "return", "let", "var", "const", "else", "loop", "case", "const_assert")
             attr = k >= 2 and lexemes[k - 2] == "@"
             stack.append((is_call and not attr, len(out)))
